@@ -184,16 +184,35 @@ def table_nontrivial(case, out):
     return ('conflict' in out) or (' 1 ' in case and ('A 1' in case or 'C 1' in case or 'U 1' in case)) or bool(re.search(r'fm (6[6-9]|[7-9]\d|\d{3,})', out))
 
 
-def oracle_scan(ctx, name, cases, lines, rc, err):
+def run_resilient(ctx, exe, cases, name):
+    """run a harness over all cases; when it aborts (assertion, sanitizer, signal) the case it died on gets an
+    ORACLE-FAIL line naming the abort and the run continues with the next case in a fresh process"""
+    lines = []; start = 0; crashes = 0; last_err = ''
+    while start < len(cases):
+        path = os.path.join(ctx.build, name + '.cases'); open(path, 'w').write('\n'.join(cases[start:]) + '\n')
+        rc, out, err = ctx.run_lines([exe], path)
+        last_err = err
+        rest = len(cases) - start
+        if rc == 0 and len(out) >= rest:
+            lines += out[:rest]; break
+        k = min(len(out), rest - 1)
+        lines += out[:k]
+        msg = [l for l in err.strip().splitlines() if l.strip()]
+        why = (msg[-1] if msg else 'no message')
+        why = re.sub(r'\[with [^\]]*\]', '', why)[-260:]
+        lines.append('!ORACLE-FAIL:harness aborted (exit %s): %s' % (rc, why))
+        start += k + 1; crashes += 1
+        if crashes >= 12:
+            lines += ['<not run after %d aborts>' % crashes] * (len(cases) - start); break
+    return lines, last_err
+
+
+def oracle_scan(ctx, name, cases, lines):
     bad = []
-    if rc != 0:
-        bad.append(('(harness %s)' % name, err[-400:], 'harness crashed or was killed (exit %s)' % rc))
     for c, out in zip(cases, lines):
         m = re.search(r'!ORACLE-FAIL:(.*)', out)
         if m:
             bad.append((c, out[-300:], m.group(1)[:300]))
-    if rc == 0 and len(lines) < len(cases):
-        bad.append((cases[len(lines)], '', 'harness stopped after %d of %d cases' % (len(lines), len(cases))))
     return bad
 
 
@@ -295,7 +314,7 @@ def run(ctx):
         scale = max(scale, 4)
     tcases = gen_table_cases(ctx, scale)
     icases = idxgen.gen_cases(ctx.rng, scale)
-    all_bad = []
+    all_bad = []; corr_viol = []
     # ---- L0: real DataTable (4 variants) vs extracted TableSpec, plus the harness's brute-force oracle
     model_lines = None
     if have_model:
@@ -306,11 +325,10 @@ def run(ctx):
     for v in VARIANTS:
         exe = exes.get('harness%d' % v)
         if exe is None: continue
-        path = os.path.join(ctx.build, 'table.cases'); open(path, 'w').write('\n'.join(tcases) + '\n')
-        rc, lines, err = ctx.run_lines([exe], path)
+        lines, err = run_resilient(ctx, exe, tcases, 'table-v%d' % v)
         ctx.evaluations += len(tcases)
-        ctx.coverage.setdefault('harness_stats', []).append(err.strip().splitlines()[-1] if err.strip() else '')
-        bad = oracle_scan(ctx, 'harness%d' % v, tcases, lines, rc, err)
+        ctx.coverage.setdefault('harness_stats', []).append(err.strip().splitlines()[-1][-200:] if err.strip() else '')
+        bad = oracle_scan(ctx, 'harness%d' % v, tcases, lines)
         for b in bad: all_bad.append(('harness%d' % v, exe) + b)
         for c, o in zip(tcases, lines):
             if table_nontrivial(c, o): ctx.nontrivial.add(c)
@@ -320,28 +338,30 @@ def run(ctx):
             ctx.traces_validated += len(tcases) - len(mism)
             ctx.stage('corr:table-v%d' % v, not mism, ('first disagreement: case %r impl=%r model=%r' % (mism[0][1][:200], first_diff(mism[0][2], mism[0][3]), '')) if mism else '')
             ctx.tie_obligations.append({'name': 'TableSpec (extracted) == momo::DataTable variant %d on %d histories' % (v, len(tcases)), 'ok': not mism})
-            for (i, c, a, b) in mism[:2]:
-                ctx.violation('L0 specification and DataTable (variant %d) disagree: %s' % (v, first_diff(a, b)),
-                              {'case': c, 'exe': 'harness%d' % v, 'impl': a[-1500:], 'model': b, 'cmd': 'build/C07/harness%d < case' % v}, found_input=True)
+            for (i, c, a, b) in [m for m in mism if '!ORACLE-FAIL' not in m[2] and not m[2].startswith('<not run')][:1]:
+                corr_viol.append(('L0 specification and DataTable (variant %d) disagree: %s' % (v, first_diff(a, b)),
+                                  {'case': c, 'exe': 'harness%d' % v, 'impl': a[-1500:], 'model': b[-1500:], 'cmd': 'build/C07/harness%d < case' % v}))
     # ---- L1: real DataIndexes / MultiHash vs extracted IndexModel / MultiHash
     exe = exes.get('harness_idx')
     if exe is not None:
-        bad, mism = idxgen.correspond(ctx, exe, ctx.model_exe if have_model else None, icases)
+        bad, mism = idxgen.correspond(ctx, exe, ctx.model_exe if have_model else None, icases, run_resilient)
         for b in bad: all_bad.append(('harness_idx', exe) + b)
         if have_model:
             ctx.stage('corr:indexes', not mism, ('first disagreement: %r' % (mism[0],)) if mism else '')
             ctx.tie_obligations.append({'name': 'IndexModel/MultiHash (extracted) == real DataIndexes on %d scripts' % len(icases), 'ok': not mism})
-            for (c, a, b) in mism[:2]:
-                ctx.violation('L1 index model and DataIndexes disagree: %s' % first_diff(a, b),
-                              {'case': c, 'exe': 'harness_idx', 'impl': a[-1500:], 'model': b[-1500:]}, found_input=True)
+            for (c, a, b) in [m for m in mism if '!ORACLE-FAIL' not in m[1] and not m[1].startswith('<not run')][:2]:
+                corr_viol.append(('L1 index model and DataIndexes disagree: %s' % first_diff(a, b),
+                                  {'case': c, 'exe': 'harness_idx', 'impl': a[-1500:], 'model': b[-1500:]}))
     # ---- the oracle verdict (independent of the Coq models)
     ctx.stage('oracle', not all_bad, all_bad[0][4] if all_bad else '')
     seen = set()
     for (name, exe, c, out, why) in all_bad:
         if (name, why[:60]) in seen or len(seen) >= 3: continue
         seen.add((name, why[:60]))
-        small = shrink_case(ctx, exe, c) if c.startswith('T |') else c
+        small = shrink_case(ctx, exe, c)
         ctx.violation('%s: %s' % (name, why), {'case': small, 'exe': name, 'impl_output': out, 'cmd': 'build/C07/%s < case' % name}, found_input=True)
+    for (what, rp) in corr_viol[:3]:
+        ctx.violation(what, rp, found_input=True)
     for c in (tcases[:2] + icases[:3]):
         ctx.add_sample(c[:400])
     ctx.coverage['input_distribution'] = {'table_histories': len(tcases), 'variants': len(VARIANTS), 'index_scripts': len(icases),
